@@ -175,3 +175,69 @@ def check(run, prog, tier):
             else:
                 run.ob("C09-e", inst, False, "%s runs LPC code in a loop whose recovery point is armed outside the loop (cycle %s avoids setjmp): after an error the loop is re-entered from the setjmp with its per-task bookkeeping half done" % (fn, p),
                        f.file, n.get("l"), f.name, what="%s: one recovery point for many tasks; an error in one task disturbs the others" % f.name)
+
+    # ---- C09-c stale connection records
+    from rules import C09c
+    C09c.check(run, prog, tier, cg, eff)
+
+    # ---- C09-f the connection table's recorded length never exceeds its allocation
+    run.rule("C09-f", "wherever the connection table all_users is (re)allocated, the element count of every allocation and the bound up to which max_users is advanced are the same expression (C09-b and every scan `i < max_users` rely on max_users <= allocated slots)", 1)
+    glob_fn = [f for f in prog.functions() if any(n.get("k") == "Asg" and strip(n["L"]).get("k") == "Ref" and strip(n["L"]).get("n") == "all_users" and strip(n["L"]).get("d") in ("global", "static") for b, i, n in f.nodes())]
+    run.need(glob_fn, "functions allocating all_users")
+
+    def alloc_count(rhs):
+        """element count of  (T**)realloc(p, sizeof(T*) * N) / xalloc(sizeof(T*[1]) * N) / calloc(N, sizeof(T*))"""
+        r = strip(rhs)
+        if r.get("k") != "Call":
+            return None
+        if r.get("fn") in ("calloc", "debugcalloc") and len(r.get("args", [])) >= 2:
+            return strip(r["args"][0])
+        for a in r.get("args", []):
+            a = strip(a)
+            if a.get("k") == "Bin" and a.get("op") == "*":
+                l, rr = strip(a["L"]), strip(a["R"])
+                if l.get("k") == "Sizeof":
+                    return rr
+                if rr.get("k") == "Sizeof":
+                    return l
+        return None
+
+    def resolve_local(f, e):
+        """a local with exactly one definition stands for that definition's text"""
+        e = strip(e)
+        if e.get("k") == "Ref" and e.get("d") == "local":
+            ds = [v.get("init") for b, i, n in f.nodes() if n.get("k") == "Decl" for v in n.get("vars", []) if v.get("id") == e.get("id") and "init" in v]
+            ds += [n["R"] for b, i, n in f.nodes() if n.get("k") == "Asg" and strip(n["L"]).get("id") == e.get("id") and strip(n["L"]).get("k") == "Ref"]
+            if len(ds) == 1:
+                return facts.show(strip(ds[0]))
+        v = const_val(e)
+        return str(v) if v is not None else facts.show(e)
+
+    for f in sorted(glob_fn, key=lambda x: x.line):
+        run.saw(f)
+        counts = []
+        for b, i, n in f.nodes():
+            if n.get("k") == "Asg" and strip(n["L"]).get("k") == "Ref" and strip(n["L"]).get("n") == "all_users":
+                c = alloc_count(n["R"])
+                counts.append((n.get("l"), resolve_local(f, c) if c is not None else None))
+        # how far max_users is advanced: `max_users = K`  or  `while (max_users < B) .. max_users++`
+        bounds = []
+        for b, i, n in f.nodes():
+            if n.get("k") == "Asg" and n.get("op") == "=" and strip(n["L"]).get("k") == "Ref" and strip(n["L"]).get("n") == "max_users":
+                bounds.append((n.get("l"), resolve_local(f, n["R"])))
+            if n.get("k") == "Un" and n.get("op") in ("++",) and strip(n["e"]).get("n") == "max_users":
+                gb = None
+                for c, t, B in cfgq.guards(f, b.id):
+                    op, l, r = atom_of(c, t)
+                    if op == "<" and strip(l).get("n") == "max_users":
+                        gb = resolve_local(f, r)
+                bounds.append((n.get("l"), gb))
+        inst = "table-length:%s:%s" % (rel(f.file), f.name)
+        if not counts or any(c[1] is None for c in counts) or not bounds or any(b[1] is None for b in bounds):
+            run.ob("C09-f", inst, None, "allocation counts %s / max_users bounds %s not all recognised" % (counts, bounds), f.file, f.line, f.name)
+            continue
+        texts = {c[1] for c in counts}
+        btexts = {b[1] for b in bounds}
+        ok = len(texts) == 1 and texts == btexts
+        run.ob("C09-f", inst, ok, "all_users allocated with %s element(s); max_users advanced to %s" % (sorted(texts), sorted(btexts)), f.file, counts[0][0], f.name,
+               what="%s allocates all_users with %s slots but advances max_users to %s: the recorded table length can exceed the allocation (writes and scans past the end)" % (f.name, sorted(texts), sorted(btexts)))
